@@ -32,6 +32,33 @@ from funsor.interpretations import reflect
 from funsor.interpreter import reinterpret
 
 KF_REDUCE = "KF-reduce-int-range"
+
+
+class PadTransform:
+    """Duck-typed stand-in for a backend Transform with shape metadata (event_dim 1): appends `k` zeros to the
+    last axis, so forward_shape changes the event shape.  Used to exercise `_transform_find_domain`."""
+
+    def __init__(self, k):
+        from types import SimpleNamespace
+        self.k = k
+        self.__name__ = f"pad{k}"
+        self.domain = SimpleNamespace(event_dim=1)
+        self.codomain = SimpleNamespace(event_dim=1)
+
+    def forward_shape(self, shape):
+        return tuple(shape[:-1]) + (shape[-1] + self.k,)
+
+    def __call__(self, x):
+        return np.concatenate([x, np.zeros(x.shape[:-1] + (self.k,), dtype=x.dtype)], -1)
+
+
+_TRANSFORMS = {}
+
+
+def pad_transform(k):
+    if k not in _TRANSFORMS:
+        _TRANSFORMS[k] = PadTransform(k)
+    return _TRANSFORMS[k]
 OPS = {"add": ops.add, "mul": ops.mul, "max": ops.max, "min": ops.min, "logaddexp": ops.logaddexp,
        "sub": ops.sub, "and_": ops.and_, "or_": ops.or_}
 
@@ -84,6 +111,11 @@ def build(r):
         return Align(build(r[1]), tuple(r[2]))
     if tag == "binary":
         return Binary(OPS[r[1]], build(r[2]), build(r[3]))
+    if tag == "tupleget":
+        from funsor.terms import Tuple
+        return Tuple(tuple(build(p) for p in r[1]))[r[2]]
+    if tag == "transform":
+        return Unary(ops.WrappedTransformOp(fn=pad_transform(r[1])), build(r[2]))
     raise ValueError(tag)
 
 
@@ -190,6 +222,17 @@ def type_of(r):
         else:
             dt = bint_assoc(r[1], ld, rd)
         return ins, (dt, bc(ls, rs))
+    if tag == "tupleget":                    # Tuple.__init__ + find_domain(getslice, Product[...]) with an int index
+        parts = [type_of(p) for p in r[1]]
+        ins = OrderedDict()
+        for pi, _ in parts:
+            ins.update(pi)
+        return ins, parts[r[2]][1]
+    if tag == "transform":                   # _transform_find_domain: fn.forward_shape(domain.shape), same dtype
+        ins, (dt, sh) = type_of(r[2])
+        if not sh:
+            raise NotImplementedError
+        return ins, (dt, tuple(sh[:-1]) + (sh[-1] + r[1],))
     raise ValueError(tag)
 
 
@@ -237,6 +280,10 @@ def python_of(r):
         return f"Align({python_of(r[1])}, {tuple(r[2])!r})"
     if tag == "binary":
         return f"Binary(ops.{OPS[r[1]].name}, {python_of(r[2])}, {python_of(r[3])})"
+    if tag == "tupleget":
+        return f"Tuple(({', '.join(python_of(p) for p in r[1])},))[{r[2]}]"
+    if tag == "transform":
+        return f"Unary(ops.WrappedTransformOp(fn=PAD[{r[1]}]), {python_of(r[2])})"
     raise ValueError(tag)
 
 
@@ -250,6 +297,14 @@ from funsor.domains import Array, Real, Reals
 from funsor.terms import *
 from funsor.interpretations import reflect
 from funsor.interpreter import reinterpret
+from types import SimpleNamespace
+class PadTransform:
+    def __init__(self, k):
+        self.k = k; self.__name__ = "pad%d" % k
+        self.domain = SimpleNamespace(event_dim=1); self.codomain = SimpleNamespace(event_dim=1)
+    def forward_shape(self, shape): return tuple(shape[:-1]) + (shape[-1] + self.k,)
+    def __call__(self, x): return np.concatenate([x, np.zeros(x.shape[:-1] + (self.k,), dtype=x.dtype)], -1)
+PAD = {{k: PadTransform(k) for k in (0, 1, 2)}}
 def mk():
     return {expr}
 with reflect:
@@ -361,6 +416,8 @@ class TermRun:
                 continue
             ctx.count(f"ctor:{label}-" + ("value" if isinstance(R, (Tensor, Number)) else "lazy"))
             bad = result_defect(L, R)
+            if isinstance(R, Tensor) and R.output.dtype != "real" and np.asarray(R.data).dtype == bool:
+                ctx.count(f"ctor:{kind}:bint-declared-bool-data")
             if bad == "value-range" and region:
                 self.known_hit.setdefault(region, dict(desc, lazy=str(L.output), eager=str(R.output),
                                                        data=np.asarray(R.data).tolist()))
@@ -449,6 +506,11 @@ def constructor_cases(run, tier):
                                 run.check("reduce", ("reduce", op, T(ins, "real", ev), tuple(red) + absent))
                             for op in ("max", "min"):
                                 run.check("reduce", ("reduce", op, T(ins, 3, ev), tuple(red) + absent))
+                            if not absent:
+                                # and_/or_ over Bint data: eager is np.all/np.any (logical, bool data: a wrong VALUE
+                                # for n > 2, KF-reduce-andor-logical-on-ints / C01) — the declared Bint[n] is honoured
+                                for op in ("and_", "or_"):
+                                    run.check("reduce-andor-bint", ("reduce", op, T(ins, 3, ev), tuple(red)))
                             for op in (("add", "mul") if not absent else ()):
                                 run.check("reduce-bint-addmul", ("reduce", op, T(ins, 3, ev), tuple(red) + absent),
                                           region=KF_REDUCE)
@@ -519,6 +581,19 @@ def constructor_cases(run, tier):
                 # … then ground the new real input: the result must be a Tensor of the declared output
                 val = T(batch[:1], "real", (n,) + dsh)
                 run.check("independent-subs", ("subs", ind, (("x", val),)))
+
+    # ---- Tuple[...] indexed by an int (find_domain on a ProductDomain), wrapped_transform ---------------------------
+    for b1, b2 in itertools.product(BATCHES[:3], repeat=2):
+        for ev1, ev2, dt in itertools.product(events, events[:3], DTYPES):
+            parts = (T(b1, dt, ev1), T(b2, "real", ev2))
+            for idx in (0, 1, -1):
+                run.check("tuple-getitem", ("tupleget", parts, idx))
+    for batch, dt in itertools.product(BATCHES, DTYPES):
+        for ev in ((), (2,), (3,), (2, 3), (1, 2)):
+            for k in (0, 1, 2):
+                run.check("transform", ("transform", k, T(batch, dt, ev)))
+                run.check("transform", ("transform", k, ("var", "x", dt, ev)))
+                run.check("transform-subs", ("subs", ("transform", k, ("var", "x", dt, ev)), (("x", T(batch, dt, ev)),)))
 
     # ---- Binary over Variables / mixed: Contraction via normalize ------------------------------------------
     for op in ("add", "mul", "max", "min", "sub", "logaddexp"):
